@@ -2,6 +2,7 @@ import ComposeVerif.Lemmas.ShortTransform
 import ComposeVerif.Model.ShortTransform
 import ComposeVerif.Model.Merge
 import ComposeVerif.Model.ShortMerge
+import ComposeVerif.Lemmas.Merge
 /-!
 # C03 × override.Merge: the second expansion site of the short forms
 
@@ -55,5 +56,56 @@ theorem listIntoMap_networks_distinct (names : List String) (hnd : names.Nodup) 
   | ok b => rw [hm] at h; simp only [sameOut, List.nil_append] at h; rw [h]
   | err e => rw [hm] at h; simp [sameOut] at h
   | panic e => rw [hm] at h; simp [sameOut] at h
+
+theorem mergeOne_shape (f : Val → Val → TPath → Merge.Out Val) (a r : Val.KVs) (k : String) (v : Val) (p : TPath)
+    (h : Merge.mergeKVsWith f a [(k, v)] p = .ok r) : ∃ y, r = Val.insert k y a := by
+  simp only [Merge.mergeKVsWith] at h
+  split at h
+  · simp only [Merge.Out.ok.injEq] at h; exact ⟨v, h.symm⟩
+  · split at h
+    · simp only [Merge.Out.ok.injEq] at h; exact ⟨v, h.symm⟩
+    · rename_i e _ _
+      cases hf : f e v (Merge.next p k) with
+      | ok m => rw [hf] at h; simp only [Merge.Out.bind, Merge.Out.ok.injEq] at h; exact ⟨m, h.symm⟩
+      | err e => rw [hf] at h; simp [Merge.Out.bind] at h
+      | panic e => rw [hf] at h; simp [Merge.Out.bind] at h
+
+theorem lookup_long (names : List String) (k : String) (hk : k ∈ names) (d : Val) :
+    Val.lookup k (names.map (fun n => (n, d))) = some d := by
+  induction names with
+  | nil => simp at hk
+  | cons n r ih =>
+    simp only [List.map_cons, Val.lookup]
+    by_cases h : k = n
+    · simp [h]
+    · simp only [h, if_false]
+      exact ih (by simpa [h] using hk)
+
+theorem dependsMap_lookup (l r : Val.KVs) (h : dependsMap l = .ok r) (k : String) (d : Val.KVs)
+    (hk : Val.lookup k l = some (.map d)) : Val.lookup k r = some (.map (dependsDefaults d)) := by
+  induction l generalizing r with
+  | nil => simp [Val.lookup] at hk
+  | cons e t ih =>
+    obtain ⟨k0, v0⟩ := e
+    cases v0 with
+    | map d0 =>
+      simp only [dependsMap] at h
+      cases ht : dependsMap t with
+      | ok r' =>
+        rw [ht] at h
+        simp only [Out.ok.injEq] at h
+        subst h
+        simp only [Val.lookup] at hk ⊢
+        by_cases hkk : k = k0
+        · simp only [hkk, if_true, Option.some.injEq, Val.map.injEq] at hk ⊢
+          rw [hk]
+        · simp only [hkk, if_false] at hk ⊢
+          exact ih r' ht hk
+      | err x => rw [ht] at h; simp at h
+      | panic x => rw [ht] at h; simp at h
+    | _ => simp [dependsMap] at h
+
+theorem startedRequired_fix : dependsDefaults [("condition", .str "service_started"), ("required", .bool true)]
+    = [("condition", .str "service_started"), ("required", .bool true)] := rfl
 
 end CV.Short
